@@ -114,3 +114,88 @@ Theorem C16_split_bars_inputs : forall st is_ meta qnl j s, nth_error st j = Som
              (memn j (meta :: is_) = false -> s' = s).
 Proof. exact C16_proofs.C16_split_bars_inputs. Qed.
 Print Assumptions C16_split_bars_inputs.
+
+(* ================================================================ bars, tracks, compositions (Model/Comp.v,
+   Proofs/Comp_proofs.v).  A composition is a list of tracks, a track a list of bars plus a program, a bar owns a
+   Sequence object; all are values of the functional model.  Vocabulary (Proofs/Comp_proofs.v):
+     bar_built b    b is a value returned by the Bar constructor:  exists s, cbar_new s (cb_num b) (cb_den b) (cb_key b) = Ok b
+     track_built t  all bars of t are bar_built and t is what the Track constructor returns on them
+     comp_built c   all tracks of c are track_built
+     ticks l 0      (Proofs/C18_proofs.v) the non-wait messages of the relative list l with their accumulated ticks *)
+From Model Require Import Comp.
+From Proofs Require Import C18_proofs Comp_proofs.
+
+(* frame: applying any bar operation f (transpose, copy, any history on the bar's sequence, ...) to bar bi of track
+   ti yields a composition of the same shape in which every other track is literally the old one, and in track ti the
+   program and every other bar are literally the old ones: the other bars are independent by construction *)
+Theorem C16_comp_frame : forall (c c' : comp) (ti bi : nat) (f : cbar -> result cbar),
+  comp_on_bar c ti bi f = Ok c' ->
+  length c' = length c /\
+  (forall tj, tj <> ti -> nth_error c' tj = nth_error c tj) /\
+  exists t b b' t', nth_error c ti = Some t /\ nth_error (ct_bars t) bi = Some b /\ f b = Ok b' /\
+    nth_error c' ti = Some t' /\ ct_program t' = ct_program t /\ length (ct_bars t') = length (ct_bars t) /\
+    nth_error (ct_bars t') bi = Some b' /\
+    (forall bj, bj <> bi -> nth_error (ct_bars t') bj = nth_error (ct_bars t) bj).
+Proof. exact Comp_proofs.C16_comp_frame. Qed.
+Print Assumptions C16_comp_frame.
+
+(* the call fails only for an index out of range or because the bar operation itself fails *)
+Theorem C16_comp_frame_err : forall (c : comp) (ti bi : nat) (f : cbar -> result cbar) (e : err),
+  comp_on_bar c ti bi f = Err e ->
+  (e = IndexErr /\ (nth_error c ti = None \/ exists t, nth_error c ti = Some t /\ nth_error (ct_bars t) bi = None)) \/
+  exists t b, nth_error c ti = Some t /\ nth_error (ct_bars t) bi = Some b /\ f b = Err e.
+Proof. exact Comp_proofs.C16_comp_frame_err. Qed.
+Print Assumptions C16_comp_frame_err.
+
+(* what Composition.from_sequences returns is made by the constructors *)
+Theorem C16_comp_from_sequences_built : forall (rels : list (list msg)) (meta : nat) (c : comp),
+  comp_from_sequences rels meta = Ok c -> comp_built c.
+Proof. exact Comp_proofs.comp_from_sequences_built. Qed.
+Print Assumptions C16_comp_from_sequences_built.
+
+(* clause "a copy of a ... composition equals its original": Composition.copy of a composition built by
+   from_sequences never raises; the copy has the same number of tracks, track by track the same program and number
+   of bars, and bar by bar the same signature, key, timed events of the (fresh) relative view and duration.  The
+   copy is again made by the constructors. *)
+Theorem C16_comp_copy : forall (rels : list (list msg)) (meta : nat) (c : comp),
+  comp_from_sequences rels meta = Ok c ->
+  exists c', comp_copy c = Ok c' /\
+    (length c' = length c /\
+     forall ti t, nth_error c ti = Some t ->
+       exists t', nth_error c' ti = Some t' /\ ct_program t' = ct_program t /\
+         length (ct_bars t') = length (ct_bars t) /\
+         forall bi b, nth_error (ct_bars t) bi = Some b ->
+           exists b', nth_error (ct_bars t') bi = Some b' /\
+             cb_num b' = cb_num b /\ cb_den b' = cb_den b /\ cb_key b' = cb_key b /\
+             s_rel_stale (cb_seq b) = false /\ s_rel_stale (cb_seq b') = false /\
+             ticks (s_rel (cb_seq b')) 0 = ticks (s_rel (cb_seq b)) 0 /\
+             dur_rel (s_rel (cb_seq b')) = dur_rel (s_rel (cb_seq b))) /\
+    comp_built c'.
+Proof. exact Comp_proofs.C16_comp_copy. Qed.
+Print Assumptions C16_comp_copy.
+
+(* the same for every composition made by the constructors (so also for copies of copies); comp_equal c c' is the
+   shape / program / bar-by-bar statement spelled out in C16_comp_copy.  The hypothesis is needed: a hand-assembled
+   track whose bars carry different programs makes Track (hence copy) raise, Comp_proofs.C16_comp_copy_needs_built *)
+Theorem C16_comp_copy_built : forall c : comp, comp_built c ->
+  exists c', comp_copy c = Ok c' /\ comp_equal c c' /\ comp_built c'.
+Proof. exact Comp_proofs.C16_comp_copy_built. Qed.
+Print Assumptions C16_comp_copy_built.
+
+(* "a copy of a ... track equals its original" *)
+Theorem C16_track_copy : forall t : ctrack, track_built t ->
+  exists t', ctrack_copy t = Ok t' /\ ct_program t' = ct_program t /\ length (ct_bars t') = length (ct_bars t) /\
+    (forall bi b, nth_error (ct_bars t) bi = Some b -> exists b', nth_error (ct_bars t') bi = Some b' /\ bar_equal b b') /\
+    track_built t'.
+Proof. exact Comp_proofs.C16_track_copy. Qed.
+Print Assumptions C16_track_copy.
+
+(* laid end to end again (Composition.to_sequences), original and copy give track by track sequences with the same
+   timed events and the same duration *)
+Theorem C16_comp_copy_sequences : forall c c' : comp, comp_built c -> comp_copy c = Ok c' ->
+  exists ss ss', comp_to_sequences c = Ok ss /\ comp_to_sequences c' = Ok ss' /\ length ss' = length ss /\
+    forall ti s, nth_error ss ti = Some s ->
+      exists s', nth_error ss' ti = Some s' /\ ticks (s_rel s') 0 = ticks (s_rel s) 0 /\
+                 dur_rel (s_rel s') = dur_rel (s_rel s).
+Proof. exact Comp_proofs.C16_comp_copy_sequences. Qed.
+Print Assumptions C16_comp_copy_sequences.
